@@ -463,11 +463,509 @@ class Agg(object):
 
     def flush(self, col):
         self._merge('strict', lambda pres: {'True', 'False'} <= pres, 'either')
+        self._merge('form', lambda pres: len(pres) >= 2, 'several-forms')
+        self._merge('entry', lambda pres: len(pres) >= 3, 'several-entry-points')
         self._merge('dtype', lambda pres: len([c for c in CANON if c in pres]) >= len(CANON) - 1, 'any')
         self._merge('value', lambda pres: len(pres) >= 3, 'several-kinds')
         for k in sorted(self.d, key=repr):
             n, check, cls, witness, detail, _ = self.d[k]
             col.fail(check=check, cls=cls, witness=witness, detail='%s  [%d failing cases in this class]' % (detail, n))
+
+
+# ---------------------------------------------------------------------------------------------
+# near-miss / hostile input dimension
+#
+# For every dtype: texts and objects that are *almost* a value of the dtype (a converter that becomes
+# more lenient accepts them) together with general disguises of valid text (blanks, case, foreign
+# digits, quotes, str subclass, bytes) and of valid objects (subclass instances, tz-aware / sub-second
+# variants, the neighbouring temporal type).  The statement does not say which of them are convertible,
+# so nothing here is expected to be accepted or refused: the oracle is only what the statement says
+# about the result (stored values have exactly the type of the dtype and are in normal form; a refusal
+# is a ValueError and changes nothing; dtype= converts all or nothing).
+# ---------------------------------------------------------------------------------------------
+
+class _Str(str):
+    pass
+
+
+class _Int(int):
+    pass
+
+
+class _Float(float):
+    pass
+
+
+class _Date(dt.date):
+    pass
+
+
+class _Time(dt.time):
+    pass
+
+
+class _DateTime(dt.datetime):
+    pass
+
+
+class _Num(enum.IntEnum):
+    one = 1
+    five = 5
+
+
+UTC = dt.timezone.utc
+CET = dt.timezone(dt.timedelta(hours=1))
+
+NATIVE_TEXT = {'string': ['abc'], 'text': ['ab\ncd'], 'url': ['http://example.org/x'], 'person': ['Doe, Jane'],
+               'int': ['5', '-12'], 'float': ['1.5', '-0.25'], 'boolean': ['true', 'False'],
+               'date': ['2021-03-04'], 'time': ['05:06:07'], 'datetime': ['2021-03-04 05:06:07'],
+               '2-tuple': ['(1;2)'], '3-tuple': ['(a;b;c)']}
+
+
+def _digits(text, zero):
+    return text.translate(dict((ord('0') + i, zero + i) for i in range(10)))
+
+
+# disguises of a valid text: (label, function)
+TEXT_DISGUISES = [
+    ('leading-blank', lambda t: ' ' + t), ('trailing-blank', lambda t: t + ' '),
+    ('surrounding-blanks', lambda t: '  ' + t + '  '), ('trailing-newline', lambda t: t + '\n'),
+    ('leading-tab', lambda t: '\t' + t), ('no-break-space', lambda t: '\xa0' + t),
+    ('zero-width-space', lambda t: t + '\u200b'), ('byte-order-mark', lambda t: '\ufeff' + t),
+    ('nul-suffix', lambda t: t + '\x00'), ('upper-case', lambda t: t.upper()),
+    ('capitalized', lambda t: t.capitalize()), ('arabic-indic-digits', lambda t: _digits(t, 0x0660)),
+    ('fullwidth-digits', lambda t: _digits(t, 0xFF10)), ('double-quoted', lambda t: '"%s"' % t),
+    ('single-quoted', lambda t: "'%s'" % t), ('doubled', lambda t: t + ' ' + t),
+    ('trailing-comma', lambda t: t + ','), ('trailing-semicolon', lambda t: t + ';'),
+    ('trailing-point', lambda t: t + '.'), ('square-bracketed', lambda t: '[' + t + ']'),
+    ('parenthesised', lambda t: '(' + t + ')'), ('str-subclass', lambda t: _Str(t)),
+    ('bytes', lambda t: t.encode('utf-8')), ('bytearray', lambda t: bytearray(t.encode('utf-8'))),
+]
+
+_AR = lambda t: _digits(t, 0x0660)      # noqa: E731
+
+# near misses proper: dtype -> [(label, value)]
+NEAR = {
+    'datetime': [
+        ('text-fractional-seconds', '2021-03-04 05:06:07.250000'), ('text-fractional-seconds-short', '2021-03-04 05:06:07.5'),
+        ('text-fractional-seconds-zero', '2021-03-04 05:06:07.000000'), ('text-fractional-comma', '2021-03-04 05:06:07,25'),
+        ('text-T-separator', '2021-03-04T05:06:07'), ('text-T-separator-fractional', '2021-03-04T05:06:07.25'),
+        ('text-timezone-Z', '2021-03-04 05:06:07Z'), ('text-timezone-offset', '2021-03-04 05:06:07+01:00'),
+        ('text-timezone-name', '2021-03-04 05:06:07 UTC'), ('text-single-digit-fields', '2021-3-4 5:6:7'),
+        ('text-two-digit-year', '21-03-04 05:06:07'), ('text-five-digit-year', '12021-03-04 05:06:07'),
+        ('text-month-13', '2021-13-04 05:06:07'), ('text-month-0', '2021-00-04 05:06:07'),
+        ('text-day-30-february', '2021-02-30 05:06:07'), ('text-day-29-february-common-year', '2021-02-29 05:06:07'),
+        ('text-day-29-february-leap-year', '2020-02-29 05:06:07'), ('text-hour-24', '2021-03-04 24:00:00'),
+        ('text-minute-60', '2021-03-04 05:60:07'), ('text-second-60', '2021-03-04 05:06:60'),
+        ('text-second-61', '2021-03-04 05:06:61'), ('text-date-only', '2021-03-04'), ('text-time-only', '05:06:07'),
+        ('text-no-seconds', '2021-03-04 05:06'), ('text-slashes', '2021/03/04 05:06:07'),
+        ('text-day-first', '04-03-2021 05:06:07'), ('text-double-blank-separator', '2021-03-04  05:06:07'),
+        ('text-compact', '20210304050607'), ('text-am-pm', '2021-03-04 05:06:07 PM'),
+        ('text-negative-year', '-2021-03-04 05:06:07'), ('text-year-0000', '0000-01-01 00:00:00'),
+        ('text-year-below-1000', '0999-12-31 23:59:59'), ('text-year-9999', '9999-12-31 23:59:59'),
+        ('text-epoch-seconds', '1614834367'),
+        ('object-microseconds', dt.datetime(2021, 3, 4, 5, 6, 7, 250000)),
+        ('object-tz-aware', dt.datetime(2021, 3, 4, 5, 6, 7, tzinfo=UTC)),
+        ('object-tz-aware-offset', dt.datetime(2021, 3, 4, 5, 6, 7, tzinfo=CET)),
+        ('object-tz-aware-microseconds', dt.datetime(2021, 3, 4, 5, 6, 7, 9, tzinfo=CET)),
+        ('object-fold', dt.datetime(2021, 3, 4, 5, 6, 7, fold=1)),
+        ('object-subclass', _DateTime(2021, 3, 4, 5, 6, 7)),
+        ('object-subclass-microseconds', _DateTime(2021, 3, 4, 5, 6, 7, 8)),
+        ('object-max', dt.datetime.max), ('object-min', dt.datetime.min),
+        ('object-year-below-1000', dt.datetime(999, 12, 31, 23, 59, 59)),
+        ('object-date', dt.date(2021, 3, 4)), ('object-time', dt.time(5, 6, 7)),
+        ('object-epoch-int', 1614834367), ('object-epoch-float', 1614834367.25),
+    ],
+    'date': [
+        ('text-datetime', '2021-03-04 05:06:07'), ('text-datetime-midnight', '2021-03-04 00:00:00'),
+        ('text-datetime-T', '2021-03-04T05:06:07'), ('text-timezone-Z', '2021-03-04Z'),
+        ('text-single-digit-fields', '2021-3-4'), ('text-two-digit-year', '21-03-04'),
+        ('text-five-digit-year', '12021-03-04'), ('text-month-13', '2021-13-04'), ('text-month-0', '2021-00-04'),
+        ('text-day-0', '2021-03-00'), ('text-day-32', '2021-03-32'), ('text-day-30-february', '2021-02-30'),
+        ('text-day-29-february-common-year', '2021-02-29'), ('text-day-29-february-leap-year', '2020-02-29'),
+        ('text-compact', '20210304'), ('text-slashes', '2021/03/04'), ('text-points', '2021.03.04'),
+        ('text-day-first', '04-03-2021'), ('text-month-name', '2021-Mar-04'), ('text-ordinal-day', '2021-063'),
+        ('text-week-date', '2021-W09-4'), ('text-year-month', '2021-03'), ('text-negative-year', '-2021-03-04'),
+        ('text-year-0000', '0000-01-01'), ('text-year-below-1000', '0999-12-31'), ('text-year-9999', '9999-12-31'),
+        ('object-datetime', dt.datetime(2021, 3, 4, 5, 6, 7)), ('object-datetime-midnight', dt.datetime(2021, 3, 4)),
+        ('object-datetime-microseconds', dt.datetime(2021, 3, 4, 0, 0, 0, 5)),
+        ('object-datetime-tz-aware', dt.datetime(2021, 3, 4, tzinfo=UTC)),
+        ('object-subclass', _Date(2021, 3, 4)), ('object-datetime-subclass', _DateTime(2021, 3, 4)),
+        ('object-max', dt.date.max), ('object-min', dt.date.min), ('object-year-below-1000', dt.date(999, 12, 31)),
+        ('object-time', dt.time(5, 6, 7)), ('object-int', 20210304), ('object-ordinal-int', 737853),
+    ],
+    'time': [
+        ('text-fractional-seconds', '05:06:07.250000'), ('text-fractional-seconds-short', '05:06:07.5'),
+        ('text-fractional-seconds-zero', '05:06:07.000000'), ('text-fractional-comma', '05:06:07,25'),
+        ('text-timezone-Z', '05:06:07Z'), ('text-timezone-offset', '05:06:07+01:00'),
+        ('text-single-digit-fields', '5:6:7'), ('text-hour-24', '24:00:00'), ('text-hour-25', '25:00:00'),
+        ('text-minute-60', '05:60:07'), ('text-second-60', '05:06:60'), ('text-second-61', '05:06:61'),
+        ('text-no-seconds', '05:06'), ('text-hour-only', '05'), ('text-am-pm', '05:06:07 PM'),
+        ('text-T-prefix', 'T05:06:07'), ('text-compact', '050607'), ('text-points', '05.06.07'),
+        ('text-datetime', '2021-03-04 05:06:07'), ('text-negative', '-05:06:07'), ('text-three-digit-hour', '005:06:07'),
+        ('object-microseconds', dt.time(5, 6, 7, 250000)), ('object-tz-aware', dt.time(5, 6, 7, tzinfo=UTC)),
+        ('object-tz-aware-microseconds', dt.time(5, 6, 7, 9, tzinfo=CET)), ('object-fold', dt.time(5, 6, 7, fold=1)),
+        ('object-subclass', _Time(5, 6, 7)), ('object-subclass-microseconds', _Time(5, 6, 7, 8)),
+        ('object-max', dt.time.max), ('object-min', dt.time.min),
+        ('object-datetime', dt.datetime(2021, 3, 4, 5, 6, 7)), ('object-date', dt.date(2021, 3, 4)),
+        ('object-timedelta', dt.timedelta(hours=5)), ('object-seconds-int', 18367), ('object-seconds-float', 18367.25),
+    ],
+    'int': [
+        ('text-exponent', '1e3'), ('text-exponent-upper', '1E3'), ('text-negative-exponent', '1e-3'),
+        ('text-big-exponent', '1e22'), ('text-huge-exponent', '1e400'), ('text-decimal-point-zero', '5.0'),
+        ('text-decimal-fraction', '5.7'), ('text-negative-decimal-fraction', '-5.7'), ('text-trailing-point', '5.'),
+        ('text-leading-point', '.5'), ('text-hex', '0x10'), ('text-octal', '0o17'), ('text-binary', '0b11'),
+        ('text-underscore', '1_000'), ('text-plus-sign', '+5'), ('text-minus-zero', '-0'), ('text-double-sign', '--5'),
+        ('text-sign-blank', '- 5'), ('text-arabic-indic-digit', '٣'), ('text-fullwidth-digit', '５'),
+        ('text-superscript-digit', '²'), ('text-roman-numeral', 'Ⅴ'), ('text-vulgar-fraction', '½'),
+        ('text-leading-zeros', '007'), ('text-thousands-comma', '1,000'), ('text-decimal-comma', '1,5'),
+        ('text-thousands-blank', '1 000'), ('text-nan', 'nan'), ('text-inf', 'inf'), ('text-negative-inf', '-inf'),
+        ('text-400-digits', '9' * 400), ('text-trailing-L', '5L'), ('text-percent', '5%'), ('text-with-unit', '5 mV'),
+        ('text-true', 'true'), ('text-word-number', 'five'), ('text-fraction', '7/2'), ('text-complex', '5+0j'),
+        ('object-bool-true', True), ('object-bool-false', False), ('object-float-fraction', 2.5),
+        ('object-float-negative-fraction', -2.5), ('object-float-integral', 2.0), ('object-float-nan', float('nan')),
+        ('object-float-inf', float('inf')), ('object-float-1e22', 1e22), ('object-complex', 5 + 0j),
+        ('object-decimal-integral', decimal.Decimal('5')), ('object-decimal-fraction', decimal.Decimal('5.5')),
+        ('object-decimal-nan', decimal.Decimal('NaN')), ('object-fraction', fractions.Fraction(7, 2)),
+        ('object-subclass', _Int(5)), ('object-int-enum', _Num.five), ('object-400-digits', 10 ** 400),
+        ('object-negative-400-digits', -10 ** 400),
+    ],
+    'float': [
+        ('text-nan', 'nan'), ('text-nan-mixed-case', 'NaN'), ('text-negative-nan', '-nan'), ('text-inf', 'inf'),
+        ('text-negative-inf', '-inf'), ('text-infinity', 'Infinity'), ('text-underscore', '1_0.0'),
+        ('text-decimal-comma', '1,5'), ('text-thousands-comma', '1,000.5'), ('text-exponent', '1e3'),
+        ('text-exponent-upper', '1E3'), ('text-exponent-signed', '1.5e+3'), ('text-d-exponent', '1d3'),
+        ('text-huge-exponent', '1e400'), ('text-tiny-exponent', '1e-400'), ('text-leading-point', '.5'),
+        ('text-trailing-point', '5.'), ('text-plus-sign', '+1.5'), ('text-minus-zero', '-0.0'),
+        ('text-double-point', '1.5.2'), ('text-hex-float', '0x1.8p1'), ('text-hex-int', '0x10'),
+        ('text-arabic-indic-digits', '٣.٥'), ('text-fullwidth-digits', '１.５'),
+        ('text-vulgar-fraction', '½'), ('text-fraction', '1/2'), ('text-percent', '50%'),
+        ('text-with-unit', '1.5 mV'), ('text-long-digits', '0.1000000000000000055511151231257827'),
+        ('text-17-digits', '0.30000000000000004'), ('text-complex', '1.5+0j'), ('text-true', 'true'),
+        ('text-f-suffix', '1.5f'),
+        ('object-bool-true', True), ('object-int', 3), ('object-400-digit-int', 10 ** 400), ('object-complex', 1.5 + 0j),
+        ('object-decimal', decimal.Decimal('1.5')), ('object-decimal-nan', decimal.Decimal('NaN')),
+        ('object-decimal-many-digits', decimal.Decimal('0.1000000000000000055511151231257827')),
+        ('object-fraction', fractions.Fraction(1, 2)), ('object-subclass', _Float(1.5)), ('object-int-subclass', _Int(3)),
+        ('object-nan', float('nan')), ('object-inf', float('inf')), ('object-negative-inf', float('-inf')),
+        ('object-minus-zero', -0.0), ('object-denormal', 5e-324), ('object-max', 1.7976931348623157e308),
+    ],
+    'boolean': [
+        ('text-T', 'T'), ('text-F', 'F'), ('text-yes', 'yes'), ('text-no', 'no'), ('text-y', 'y'), ('text-n', 'n'),
+        ('text-on', 'on'), ('text-off', 'off'), ('text-leading-blank-true', ' true'), ('text-trailing-blank-true', 'true '),
+        ('text-TRUE', 'TRUE'), ('text-True', 'True'), ('text-mixed-case-true', 'tRuE'), ('text-FALSE', 'FALSE'),
+        ('text-1', '1'), ('text-0', '0'), ('text-2', '2'), ('text-minus-1', '-1'), ('text-01', '01'), ('text-00', '00'),
+        ('text-1.0', '1.0'), ('text-0.0', '0.0'), ('text-truee', 'truee'), ('text-tru', 'tru'), ('text-null', 'null'),
+        ('text-none', 'None'), ('text-fullwidth-true', 'ｔｒｕｅ'), ('text-fullwidth-1', '１'),
+        ('text-arabic-indic-1', '١'), ('text-not-true', 'not true'), ('text-true-false', 'true false'),
+        ('text-wahr', 'wahr'), ('text-check-mark', '✓'),
+        ('object-int-2', 2), ('object-int-minus-1', -1), ('object-int-0', 0), ('object-int-1', 1),
+        ('object-float-0.0', 0.0), ('object-float-1.0', 1.0), ('object-float-0.5', 0.5), ('object-float-nan', float('nan')),
+        ('object-decimal-1', decimal.Decimal(1)), ('object-decimal-0', decimal.Decimal(0)),
+        ('object-fraction-1', fractions.Fraction(1, 1)), ('object-complex-1', 1 + 0j), ('object-complex-0', 0j),
+        ('object-int-enum-1', _Num.one), ('object-int-subclass-1', _Int(1)), ('object-int-subclass-0', _Int(0)),
+        ('object-float-subclass-1', _Float(1.0)),
+    ],
+    'string': [
+        ('text-blank-padded', ' padded '), ('text-only-newline', '\n'), ('text-nul', 'a\x00b'), ('text-tab', 'a\tb'),
+        ('text-carriage-return', 'a\rb'), ('text-combining', 'é'), ('text-ligature', 'ﬁ'),
+        ('text-lone-surrogate', 'a\ud800'), ('text-astral', '\U0001F600'), ('text-long', 'x' * 5000),
+        ('text-looks-like-list', '[a, b]'), ('text-looks-like-list-of-one', '[a]'), ('text-looks-like-tuple', '(a;b)'),
+        ('text-open-bracket', '[a'), ('text-close-bracket', 'a]'), ('text-only-brackets', '[]'),
+        ('text-nested-brackets', '[[a]]'), ('text-bracketed-empty-items', '[,]'), ('text-bracketed-blank', '[ ]'),
+        ('text-None', 'None'), ('text-looks-like-dict', "{'a': 1}"),
+        ('object-int', 5), ('object-int-0', 0), ('object-float', 1.5), ('object-float-0.0', 0.0),
+        ('object-bool-false', False), ('object-bool-true', True), ('object-date', dt.date(2021, 3, 4)),
+        ('object-datetime-microseconds', dt.datetime(2021, 3, 4, 5, 6, 7, 8)), ('object-bytes', b'abc'),
+        ('object-str-subclass', _Str('abc')), ('object-str-subclass-multiline', _Str('ab\ncd')),
+        ('object-str-subclass-empty', _Str('')), ('object-dtype-member', odml.DType.int),
+        ('object-int-enum', _Num.five), ('object-decimal', decimal.Decimal('1.5')), ('object-complex', 1j),
+        ('object-frozenset', frozenset(['a'])), ('object-type', int), ('object-ellipsis', Ellipsis),
+        ('object-not-implemented', NotImplemented),
+    ],
+    '2-tuple': [
+        ('text-arity-3', '(1;2;3)'), ('text-arity-1', '(1)'), ('text-inner-blanks', '( 1 ; 2 )'),
+        ('text-outer-blanks', ' (1;2) '), ('text-inner-newline', '(1;\n2)'), ('text-nested-brackets', '((1;2);3)'),
+        ('text-double-brackets', '((1;2))'), ('text-nested-second', '(1;(2))'), ('text-nested-pair', '((1;2);(3;4))'),
+        ('text-empty-elements', '(;)'), ('text-empty-second', '(1;)'), ('text-empty-first', '(;2)'),
+        ('text-blank-elements', '( ; )'), ('text-empty-parens', '()'), ('text-comma-separator', '(1,2)'),
+        ('text-no-brackets', '1;2'), ('text-unclosed', '(1;2'), ('text-unopened', '1;2)'), ('text-square-brackets', '[1;2]'),
+        ('text-curly-brackets', '{1;2}'), ('text-list-of-one', '[(1;2)]'), ('text-list-of-two', '[(1;2), (3;4)]'),
+        ('text-list-mixed-arity', '[(1;2), (3;4;5)]'), ('text-list-without-blank', '[(1;2),(3;4)]'),
+        ('text-trailing-semicolon', '(1;2;)'), ('text-leading-semicolon', '(;1;2)'), ('text-fullwidth-semicolon', '(1；2)'),
+        ('text-fullwidth-brackets', '（1;2）'), ('text-two-tuples-adjacent', '(1;2)(3;4)'),
+        ('text-two-tuples-blank', '(1;2) (3;4)'), ('text-reversed-brackets', ')1;2('), ('text-comma-inside-element', '(1,5;2)'),
+        ('text-semicolon-only', ';'), ('text-brackets-inside-element', '(a(b);c)'),
+        ('object-tuple-of-str', ('1', '2')), ('object-list-of-str', ['1', '2']), ('object-nested-list', [['1', '2']]),
+        ('object-nested-tuple', [('1', '2')]), ('object-nested-ints', [[1, 2]]), ('object-nested-floats', [[1.5, 2.0]]),
+        ('object-nested-arity-3', [['1', '2', '3']]), ('object-nested-arity-1', [['1']]), ('object-nested-empty', [[]]),
+        ('object-nested-mixed-types', [['1', 2]]), ('object-nested-none', [[None, '1']]),
+        ('object-nested-empty-str', [['', '']]), ('object-nested-blank-padded', [[' 1 ', '2']]),
+        ('object-nested-semicolon-in-element', [['a;b', 'c']]), ('object-nested-brackets-in-element', [['(1', '2)']]),
+        ('object-nested-newline-in-element', [['1\n', '2']]), ('object-nested-bool', [[True, False]]),
+        ('object-nested-str-subclass', [[_Str('1'), _Str('2')]]), ('object-nested-two', [['1', '2'], ['3', '4']]),
+        ('object-nested-two-mixed-arity', [['1', '2'], ['3']]), ('object-nested-then-text', [['1', '2'], '(3;4)']),
+        ('object-triple-nested', [[['1', '2']]]), ('object-int', 12), ('object-dict', {'1': '2'}),
+        ('object-str-subclass', _Str('(1;2)')), ('object-bytes', b'(1;2)'),
+    ],
+}
+NEAR['text'] = NEAR['url'] = NEAR['person'] = NEAR['string']
+NEAR['3-tuple'] = [(l, v) for l, v in NEAR['2-tuple']] + [
+    ('text-arity-3-inner-blanks', '( a ; b ; c )'), ('text-arity-4', '(a;b;c;d)'), ('text-arity-3-empty', '(;;)'),
+    ('object-nested-arity-3-ints', [[1, 2, 3]]), ('object-nested-arity-3-semicolon', [['a;b', 'c', 'd']])]
+
+NM_DTYPES = list(CANON) + ['2-tuple', '3-tuple']
+
+
+def near_pool(dtype):
+    """[(feature label, value)] for a Property of the dtype: its own near misses and the disguises of its valid
+    texts.  The label is '<pool>:<what>' and is the stable class of the input."""
+    pool = 'string' if dtype in STR_TYPES else 'n-tuple' if dtype.endswith('-tuple') else dtype
+    out = [('%s:%s' % (pool, l), v) for l, v in NEAR[dtype]]
+    for i, t in enumerate(NATIVE_TEXT[dtype]):
+        for l, f in TEXT_DISGUISES:
+            v = f(t)
+            if type(v) is str and v == t:
+                continue
+            if i and type(v) is not str:
+                continue
+            out.append(('%s:valid-text-%s' % (pool, l), v))
+    return out
+
+
+def _ident(v):
+    return (type(v).__name__, repr(v))
+
+
+def nm_source(stype, x, first=None):
+    """A Property of dtype stype (None: inferred) that holds x (after `first`); None when it cannot be built
+    or is not a conforming Property (then it is not a start state)."""
+    vals = [copy.deepcopy(x)] if first is None else [first, copy.deepcopy(x)]
+    st, src = h.call(odml.Property, name='p', dtype=stype, values=vals)
+    if st == 'exc' or inv_values(src) or len(src._values) != len(vals):
+        return None
+    return src
+
+
+def nm_cases(D, x, quick):
+    """All ways a value x reaches a Property of dtype D ('none': no dtype yet).
+    Yields (entry, strict, form, text, build, act): build() -> pre-state tuple or None, act(*pre-state)."""
+    cp = copy.deepcopy
+    d = DTYPE[D]
+    nat = NATIVE[D][0] if D != 'none' else None
+    forms = [('single', lambda: cp(x), '%r'), ('list', lambda: [cp(x)], '[%r]')]
+    if D == 'none':
+        forms.append(('twice', lambda: [cp(x), cp(x)], '[%r, %r]'))
+    else:
+        forms.append(('after-native', lambda: [nat, cp(x)], '[' + repr(nat) + ', %r]'))
+        forms.append(('before-native', lambda: [cp(x), nat], '[%r, ' + repr(nat) + ']'))
+        forms.append(('generator-after-native', lambda: (v for v in [nat, cp(x)]),
+                      '(v for v in [' + repr(nat) + ', %r])'))
+        if not quick:
+            forms.append(('tuple-after-native', lambda: (nat, cp(x)), '(' + repr(nat) + ', %r)'))
+        ntext = NATIVE_TEXT.get(D, [','])[0]
+        if type(x) is str and ',' not in ntext and not set(x) & set('[],'):
+            forms.append(('bracketed-text-after-native', lambda: '[%s, %s]' % (ntext, x),
+                          repr('[%s, ' % ntext) + ' + %r + "]"'))
+    short = forms[:2]
+    sizes = (0, 1, 2) if D != 'none' else (0,)
+
+    def start(n):
+        return lambda: (build_start((D, n)),)
+
+    def stext(n):
+        return 'p = odml.Property(name="p", dtype=%r, values=%r)' % (d, (NATIVE[D][:n] if n else None))
+
+    def fmt(pattern):
+        return pattern.replace('%r', '{x}').format(x=repr(x)[:120])
+
+    # constructor (dtype as name, as DType member, deprecated value= keyword)
+    spellings = [('', d)]
+    if D in CANON:
+        spellings.append(('DType.', getattr(odml.DType, D)))
+    for fl, fb, ft in forms:
+        for sl, sd in spellings:
+            if sl and fl not in ('single', 'after-native'):
+                continue
+            yield ('constructor', None, fl, 'odml.Property(name="p", dtype=%r, values=%s)' % (sd, fmt(ft)), None,
+                   (lambda fb=fb, sd=sd: odml.Property(name='p', dtype=sd, values=fb())))
+    for fl, fb, ft in short:
+        yield ('constructor(value=)', None, fl, 'odml.Property(name="p", dtype=%r, value=%s)' % (d, fmt(ft)), None,
+               (lambda fb=fb: odml.Property(name='p', dtype=d, value=fb())))
+    for n in sizes:
+        if quick and n == 2:
+            continue
+        for fl, fb, ft in forms:
+            yield ('values=', None, fl, '%s; p.values = %s' % (stext(n), fmt(ft)), start(n),
+                   (lambda p, fb=fb: setattr(p, 'values', fb())))
+        for fl, fb, ft in short:
+            yield ('value=', None, fl, '%s; p.value = %s' % (stext(n), fmt(ft)), start(n),
+                   (lambda p, fb=fb: setattr(p, 'value', fb())))
+    for n in sizes:
+        if n == 0:
+            continue
+        for idx in (0, 1):
+            if quick and (n, idx) == (2, 0):
+                continue
+            for fl, fb, ft in short:
+                yield ('setitem' if idx < n else 'setitem-at-end', None, fl,
+                       '%s; p[%d] = %s' % (stext(n), idx, fmt(ft)), start(n),
+                       (lambda p, fb=fb, idx=idx: p.__setitem__(idx, fb())))
+    for n in sizes:
+        for strict in (True, False):
+            for fl, fb, ft in short:
+                yield ('append', strict, fl, '%s; p.append(%s, strict=%s)' % (stext(n), fmt(ft), strict), start(n),
+                       (lambda p, fb=fb, strict=strict: p.append(fb(), strict=strict)))
+                for idx in (0, 5):
+                    if quick and (n == 2 or idx == 5 and n == 0):
+                        continue
+                    yield ('insert', strict, fl, '%s; p.insert(%d, %s, strict=%s)' % (stext(n), idx, fmt(ft), strict),
+                           start(n), (lambda p, fb=fb, strict=strict, idx=idx: p.insert(idx, fb(), strict=strict)))
+            for fl, fb, ft in forms:
+                if quick and n == 2 and fl not in ('single', 'after-native'):
+                    continue
+                yield ('extend', strict, fl, '%s; p.extend(%s, strict=%s)' % (stext(n), fmt(ft), strict), start(n),
+                       (lambda p, fb=fb, strict=strict: p.extend(fb(), strict=strict)))
+    if D == 'none':
+        return
+    # a Property of another dtype that holds x: re-typed to D, merged into / appended to a D Property
+    sources = []
+    for stype in (None, 'string', 'text'):
+        if stype is not None and not isinstance(x, str):
+            continue
+        sources.append((stype, None))
+        if stype == 'string' and D in NATIVE_TEXT and '\n' not in NATIVE_TEXT[D][0]:
+            sources.append((stype, NATIVE_TEXT[D][0]))
+    for stype, first in sources:
+        if nm_source(stype, x, first) is None:
+            continue
+        stxt = 's = odml.Property(name="p", dtype=%r, values=%r)' % (stype, ([first] if first else []) + [x])
+        fl = 'property-%s%s' % (stype or 'inferred', '-after-native' if first else '')
+        yield ('dtype=', None, fl, '%s; s.dtype = %r' % (stxt, d),
+               (lambda stype=stype, first=first: (nm_source(stype, x, first),)),
+               (lambda s: setattr(s, 'dtype', d)))
+        for n in sizes:
+            if quick and n == 2:
+                continue
+            for strict in (True, False):
+                yield ('merge', strict, fl, '%s; %s; p.merge(s, strict=%s)' % (stext(n), stxt, strict),
+                       (lambda stype=stype, first=first, n=n: (build_start((D, n)), nm_source(stype, x, first))),
+                       (lambda p, s, strict=strict: p.merge(s, strict=strict)))
+            yield ('extend-property', None, fl, '%s; %s; p.extend(s)' % (stext(n), stxt),
+                   (lambda stype=stype, first=first, n=n: (build_start((D, n)), nm_source(stype, x, first))),
+                   (lambda p, s: p.extend(s)))
+
+
+VALUE_ENTRIES = ('constructor', 'constructor(value=)', 'values=', 'value=', 'setitem', 'append', 'insert', 'extend',
+                 'merge', 'extend-property', 'dtype=')
+
+
+def nm_evaluate(D, case):
+    """Contract check of one near-miss case. Returns (violations, outcome)."""
+    entry, strict, form, text, build, act = case
+    vio = []
+    if build is None:
+        st, p = h.call(act)
+        if st == 'exc':
+            if not isinstance(p, ValueError):
+                vio.append(('refusal-is-ValueError', 'constructor raised %s: %s' % (type(p).__name__, str(p)[:80])))
+            return vio, st
+        vio = inv_values(p)
+        if not vio:
+            vio = check_normal_form(p)
+        return vio, st
+    pre_state = build()
+    p = pre_state[0]
+    assert not inv_values(p), (D, text)
+    pre, pre_len, pre_full = vsnap(p), len(p._values), h.snap(p)
+    src_pre = vsnap(pre_state[1]) if len(pre_state) > 1 else None
+    st, exc = h.call(act, *pre_state)
+    problems = inv_values(p)
+    vio += problems
+    if len(pre_state) > 1:
+        sp = inv_values(pre_state[1])
+        if sp:
+            vio += [(c, 'source Property after the operation: ' + t) for c, t in sp]
+        elif st == 'exc' and vsnap(pre_state[1]) != src_pre:
+            vio.append(('unchanged-on-raise', 'raised %s but the source Property went from %r to %r'
+                        % (type(exc).__name__, src_pre, vsnap(pre_state[1]))))
+    if st == 'exc':
+        if vsnap(p) != pre:
+            vio.append(('unchanged-on-raise', 'raised %s: %s but (values, dtype) went from %r to %r'
+                        % (type(exc).__name__, str(exc)[:60], pre, vsnap(p))))
+        elif h.snap(p) != pre_full:
+            vio.append(('unchanged-on-raise', 'raised %s but the property changed: %s'
+                        % (type(exc).__name__, h.diff(pre_full, h.snap(p)))))
+        if not isinstance(exc, ValueError):
+            # silent about indexes: p[len(p)] = x ('setitem-at-end') may be refused as an index
+            if entry in VALUE_ENTRIES:
+                vio.append(('refusal-is-ValueError', 'raised %s: %s' % (type(exc).__name__, str(exc)[:80])))
+    if entry == 'dtype=' and not problems:
+        now = vsnap(p)
+        converted = canon_dtype(p._dtype) is not None and canon_dtype(p._dtype) == canon_dtype(DTYPE[D]) \
+            and len(p._values) == pre_len
+        if now != pre and not converted:
+            vio.append(('dtype-change-all-or-nothing', 'dtype=%r on %r gave %r' % (DTYPE[D], pre, now)))
+    if not problems:
+        vio += check_normal_form(p)
+    return vio, st
+
+
+def near_miss_phase(col, agg, name, tier, seed):
+    """Phase (3) of run_values. Returns the number of (dtype, value) pairs."""
+    quick = tier == 'quick'
+    pairs = 0
+    own = dict((D, near_pool(D)) for D in NM_DTYPES)
+    for D in NM_DTYPES + ['none']:
+        todo = list(own[D]) if D != 'none' else []
+        seen = set(_ident(v) for _, v in todo)
+        # values of the other pools: all of them in the thorough tier; in the quick tier the near misses
+        # proper of the other families (not the disguises), each once
+        for E in NM_DTYPES:
+            if E == D or (E in STR_TYPES and E != 'string') or (E == '3-tuple' and D != 'none'):
+                continue
+            for label, v in own[E]:
+                if quick and ':valid-text-' in label and D != 'none':
+                    continue
+                if _ident(v) in seen:
+                    continue
+                seen.add(_ident(v))
+                todo.append((label, v))
+        for label, x in todo:
+            pairs += 1
+            foreign = not label.startswith(('string:' if D in STR_TYPES else 'n-tuple:' if D.endswith('-tuple')
+                                            else D + ':'))
+            for case in nm_cases(D, x, quick or foreign):
+                entry, strict, form, text = case[:4]
+                vio, outcome = nm_evaluate(D, case)
+                col.case(cls_key=('near-miss', entry, strict, form, D, label, outcome),
+                         sample=text if col.evaluations % 997 == 0 else None)
+                if not vio:
+                    continue
+                clauses = [c for c, _ in vio]
+                clause = [pr for pr in PRIORITY if pr in clauses][0] if set(PRIORITY) & set(clauses) else clauses[0]
+                detail = [t for c, t in vio if c == clause][0]
+                cls = {'clause': clause, 'entry': entry, 'dtype': family(D), 'feature': label, 'form': form}
+                if strict is not None:
+                    cls['strict'] = str(strict)
+                if clause == 'refusal-is-ValueError':
+                    m = re.search(r'raised (\w+)', detail)
+                    cls['exception'] = m.group(1) if m else '?'
+                agg.add('%s/%s' % (name, clause), cls, {'python': text}, 'observed: %s' % detail, len(text))
+    return pairs
+
+
+def run_near_miss(tier='quick', seed=0):
+    """Phase (3) of run_values on its own (for targeted runs; run_values includes it)."""
+    name = 'C05.values'
+    col = h.Collector(name, rule='near-miss phase of run_values only', exhaustive=True)
+    agg = Agg()
+    pairs = near_miss_phase(col, agg, name, tier, seed)
+    agg.flush(col)
+    res = col.result()
+    res['failure_classes'] = len(agg.d)
+    res['pairs'] = pairs
+    return res
 
 
 def _ctor_cases():
@@ -490,8 +988,21 @@ def run_values(tier='quick', seed=0, max_evaluations=None):
              'properties (each canonical dtype and 2-/3-tuple with 0, 1, 2 native values; dtype None empty); '
              'states reached at the last level are taken one per (dtype, number of values, operation kind that '
              'produced it) when the evaluation budget would be exceeded; one evaluation = one contract check on a '
-             'property rebuilt from scratch; distinct = (operation kind, state dtype/size, argument class, outcome)'
-             % (len(DTYPES), len(VALUES), len(VOPS), depth, len(STARTS)),
+             'property rebuilt from scratch; distinct = (operation kind, state dtype/size, argument class, outcome); '
+             '(3) near misses: for each of the %d dtypes (and no dtype) its pool of near-miss texts and hostile objects '
+             '(%d labelled values in all: fractional seconds, T separator, time zone, out-of-range and single-digit fields, '
+             'foreign digits, exponent / hex / underscore / sign / comma forms, nan / inf, boolean spellings, tuple arity / '
+             'blanks / nesting / empty elements, sub-second and tz-aware objects, subclass instances, Decimal / Fraction / '
+             'complex, neighbouring temporal type) plus %d disguises of each valid text (blanks, case, quotes, foreign '
+             'digits, str subclass, bytes), and the pools of the other dtypes (quick: near misses only; thorough: all), '
+             'each driven through every entry point that stores values: constructor (dtype name / DType member / value= '
+             'keyword), values=, value=, p[i]=, append / insert / extend with strict on and off on 0, 1, 2 native values, '
+             'dtype= on a string / text / inferred-dtype Property holding the value, merge (strict on/off) and extend of '
+             'such a Property; argument forms: alone, [x], after / before a native value, generator, tuple, bracketed text; '
+             'distinct = (entry point, strict, form, dtype, value label, outcome)'
+             % (len(DTYPES), len(VALUES), len(VOPS), depth, len(STARTS), len(NM_DTYPES),
+                sum(len(NEAR[d]) for d in ('datetime', 'date', 'time', 'int', 'float', 'boolean', 'string', '3-tuple')),
+                len(TEXT_DISGUISES)),
         exhaustive=True)
     agg = Agg()
 
@@ -580,10 +1091,14 @@ def run_values(tier='quick', seed=0, max_evaluations=None):
                     seen[key] = (st, hist + (op,))
                     nxt.append((st, hist + (op,)))
         frontier = nxt
+
+    # (3) near misses and hostile objects through every entry point
+    pairs = near_miss_phase(col, agg, name, tier, seed)
     agg.flush(col)
     res = col.result()
     res['failure_classes'] = len(agg.d)
     res['states'] = len(seen)
+    res['near_miss_pairs'] = pairs
     return res
 
 
